@@ -81,7 +81,14 @@ func init() {
 		if op.Note == "no0x" {
 			hx = hex.EncodeToString(sig)
 		}
-		return []sdk.Msg{&vauthtypes.MsgSubmitProofExternalOwnedAccount{Submitter: w.wallet(op.W).Bech32(), Account: acc.Bech32(), Signature: hx}}
+		account := acc.Bech32()
+		switch op.Note {
+		case "acc_upper": // the other valid spelling of the same bech32 address
+			account = strings.ToUpper(account)
+		case "acc_mixed": // invalid spelling
+			account = strings.ToUpper(account[:len(account)/2]) + account[len(account)/2:]
+		}
+		return []sdk.Msg{&vauthtypes.MsgSubmitProofExternalOwnedAccount{Submitter: w.wallet(op.W).Bech32(), Account: account, Signature: hx}}
 	}
 	opHandlers["export"] = func(w *World, op *Op) { c18RoundTrip(w) }
 	Arms["C18"] = &Arm{Gen: genC18, Run: runPc()}
